@@ -96,7 +96,12 @@ func runNative(files []harnessFile, pkgRel string, names []string, replayPath st
 	ov := writeOverlay(files, pkgRel, names)
 	ctx, cancel := context.WithTimeout(context.Background(), 240*time.Second)
 	defer cancel()
-	cmd := exec.CommandContext(ctx, "go", "test", "-v", "-vet=off", "-count=1", "-timeout", "120s", "-overlay", ov, "-run", "^TestVerifReplay$", "./"+pkgRel)
+	args := []string{"test", "-v", "-vet=off", "-count=1", "-timeout", "120s", "-overlay", ov, "-run", "^TestVerifReplay$", "./" + pkgRel}
+	if b, err := os.ReadFile(replayPath); err == nil && strings.Contains(string(b), "\"VerifC09_") {
+		// lock-discipline findings are confirmed under the race detector
+		args = append([]string{"test", "-race"}, args[1:]...)
+	}
+	cmd := exec.CommandContext(ctx, "go", args...)
 	cmd.Dir = repoDir
 	cmd.Env = append(os.Environ(), "GOFLAGS=-mod=mod", "GOPROXY=off", "GOSUMDB=off", "GOTOOLCHAIN=local", "TZ=UTC", "VERIF_REPLAY="+replayPath)
 	var out bytes.Buffer
@@ -104,6 +109,9 @@ func runNative(files []harnessFile, pkgRel string, names []string, replayPath st
 	cmd.Stderr = &out
 	err := cmd.Run()
 	o := out.String()
+	if strings.Contains(o, "WARNING: DATA RACE") {
+		return "fail", "data race reported by the race detector"
+	}
 	for _, l := range strings.Split(o, "\n") {
 		if strings.HasPrefix(l, "VERIF-OUTCOME ") {
 			parts := strings.SplitN(strings.TrimPrefix(l, "VERIF-OUTCOME "), " ", 2)
